@@ -65,6 +65,16 @@ class NumericalSolver:
             else:
                 return result
             
+    def number(self, expr, in_units=None):
+        """ Plain number of an expression: in the given units, or of a dimensionless result
+        """
+        result = self.solve(expr, in_units)
+        if isinstance(result, Quantity):
+            if not result.baseunits.dimensions.nodim:
+                raise Exception("Expression result has dimensions but no units are given:", expr, result)
+            result = result.value()
+        return result
+
     def equal(self, expr1, expr2):
         unit1 = self.solve(expr1)
         unit2 = self.solve(expr2)
